@@ -72,7 +72,7 @@ pub fn tokens(src: &str) -> Vec<String> {
     out
 }
 
-pub const CORPUS: [&str; 30] = [
+pub const CORPUS: [&str; 33] = [
     "unsigned char a, b, r;\nvoid main()\n{\n  r = a + b;\n}\n",
     "char a;\nshort s;\nvoid main()\n{\n  s = a << 8 | 3;\n  if (s >= 256) a = 1; else a = 2;\n}\n",
     "char arr[4];\nconst char tab[3] = {1, 2, 3};\nvoid main()\n{\n  for (X = 0; X < 3; X++) arr[X] = tab[X];\n}\n",
@@ -103,6 +103,9 @@ pub const CORPUS: [&str; 30] = [
     "unsigned char x;\nchar f(char a, char b) { if (a > b) return a; return b; }\nvoid main()\n{\n  x = f(1, f(2, 3));\n}\n",
     "short tab16[2];\nchar idx;\nvoid main()\n{\n  tab16[X] = 1000;\n  tab16[1] += 2;\n  idx = tab16[X] >> 8;\n}\n",
     "char a;\nvoid main()\n{\n  while (a < 10) a += 2;\n  do a--; while (a);\n  if (a) ; else a = 1;\n}\n",
+    "unsigned char lo, hi;\nvoid main()\n{\n  short int wide;\n  unsigned short int uw;\n  wide = 0x1234;\n  wide += 0x100;\n  uw = wide;\n  lo = uw;\n  hi = wide >> 8;\n}\n",
+    "short frame_counter_16bit;\nshort another_quite_long_name_16;\nunsigned char lo, hi;\nvoid main()\n{\n  frame_counter_16bit = 0x1234;\n  another_quite_long_name_16 = frame_counter_16bit;\n  lo = frame_counter_16bit;\n  hi = another_quite_long_name_16 >> 8;\n}\n",
+    "char i, j;\nconst char *msg[] = {\"zoba\", \"zobi\"};\nchar *q;\nvoid main()\n{\n  i = 1; /* set i */\n  j = 2; // set j\n  q = msg[X];\n}\n",
 ];
 
 pub const REPL: [&str; 40] = [
@@ -238,6 +241,36 @@ pub fn directed() -> Vec<Input> {
     add("ternary without else", "char a;\nvoid main() { a = a ? 1; }\n");
     add("colon without question", "char a;\nvoid main() { a = 1 : 2; }\n");
     add("ptr_low wrong mask", "char t[2];\nconst char q = t & 254;\nvoid main() {}\n");
+    for st in ["a = p;", "a = p + 1;", "a = *p;", "q = &p;", "a = sizeof(p);", "p = 1;", "p++;", "strobe(p);", "load(p);", "if (p) a = 1;", "X = p;", "g(p);", "a += p;", "switch (p) { case 1: a = 1; }", "a = arr[p];", "a = p ? 1 : 2;", "q = p;", "return p;", "while (p) a++;"] {
+        add(&format!("prototype-only function used as a value: {}", st), &format!("char p();\nvoid g(char v) {{ X = v; }}\nchar a; char arr[4]; char *q;\nvoid main() {{ {} }}\n", st));
+    }
+    add("undef then use of a later macro", "#define A 1\n#define B 2\n#undef A\nvoid main() { X = B; }\n");
+    add("undef then reuse of the name", "#define A 1\n#undef A\nchar A;\nvoid main() { A = 3; }\n");
+    add("undef of the middle one of three", "#define A 1\n#define B 2\n#define C 3\n#undef B\nvoid main() { X = A + C; }\n");
+    add("undef of an unknown name", "#undef NOPE\nvoid main() { }\n");
+    add("undef twice", "#define A 1\n#undef A\n#undef A\nvoid main() { }\n");
+    for c in ["Y && 1", "Y || 0", "1 && Y", "0 || Y", "Y && 0", "Y || 1", "!Y && 1", "X && Y && 1", "X == 1 && 1", "X || Y || 0", "1", "0"] {
+        for form in ["X = ({}) ? 2 : 3;", "if (({}) ? X : Y) a = 1;", "a = (({}) ? 2 : 3) + 1;", "if ({}) a = 1; else a = 2;", "while ({}) { a++; break; }", "a = {};", "a = !({});"] {
+            add(&format!("constant mixed into a logical condition: {}", form.replace("{}", c)), &format!("char a;\nvoid main() {{ {} }}\n", form.replace("{}", c)));
+        }
+    }
+    add("conditional continue in switch without loop", "char a, c;\nvoid main() { switch (a) { case 1: if (c) continue; } }\n");
+    add("conditional break in switch without loop", "char a, c;\nvoid main() { switch (a) { case 1: if (c) break; a = 2; } }\n");
+    add("conditional continue in nested switch in loop", "char a, c;\nvoid main() { while (a) { switch (a) { case 1: switch (c) { case 2: if (c) continue; } } a--; } }\n");
+    add("macro doubling itself", "#define A A A\nchar a;\nvoid main() { a = A; }\n");
+    add("macro tripling itself with operator", "#define A (A+A+A)\nchar a;\nvoid main() { a = A; }\n");
+    add("function-like macro doubling itself", "#define F(x) F(x) F(x)\nchar a;\nvoid main() { a = F(1); }\n");
+    add("mutually doubling macros", "#define B 1\n#define A B B\n#define B A A\nchar a;\nvoid main() { a = A; }\n");
+    add("macro doubling itself used in #if", "#define A A A\n#if A\nchar a;\n#endif\nvoid main() { }\n");
+    add("sizeof of negative-size array", "char arr[-1];\nchar a;\nvoid main() { a = sizeof(arr); }\n");
+    add("sizeof of negative-size array in constant", "char arr[-1];\nconst char k = sizeof(arr);\nvoid main() { }\n");
+    add("sizeof of huge array", "char arr[2147483647];\nconst short k = sizeof(arr) + 1;\nvoid main() { }\n");
+    add("short array of huge size", "short arr[1073741824];\nconst short k = sizeof(arr);\nvoid main() { }\n");
+    add("statement on the last line", "char a;\nvoid main() {\n a = 1; }\n");
+    add("statement on the last line, no newline", "char a;\nvoid main() {\n a = 1; }");
+    add("whole program on one line", "char a; void main() { a = 1; if (a) a = 2; }\n");
+    add("last line is a comment after the statement", "char a;\nvoid main() {\n a = 1; } // end");
+    add("include then statement on last line", "#include \"c16_inc_plain.h\"\nvoid main() {\n inc_a = 1; }\n");
     raw.push(("non-UTF-8 bytes".into(), b"char a;\nvoid main() { a = '\xff'; }\n// \xc3\x28 \xfe\n".to_vec()));
     raw.push(("NUL bytes".into(), b"char a;\x00\nvoid main() { a = 1; }\n".to_vec()));
     add("CR only line ends", "char a;\rvoid main() { a = 1; }\r");
@@ -263,6 +296,9 @@ pub fn directed() -> Vec<Input> {
     for (name, src) in raw {
         v.push(Input { family: "directed", name, src, opts: vec!["-O1"] });
     }
+    // every directed input again with the listing option and without optimisation
+    let again: Vec<Input> = v.iter().map(|i| Input { family: "directed", name: format!("{} [-O0 --insert-code]", i.name), src: i.src.clone(), opts: vec!["-O0", "--insert-code"] }).collect();
+    v.extend(again);
     v
 }
 
@@ -276,6 +312,18 @@ pub fn mutants(tier: Tier) -> Vec<Input> {
         let join = |t: &Vec<String>| t.concat();
         v.push(Input { family: "corpus", name: format!("p{} unchanged", pi), src: p.as_bytes().to_vec(), opts: vec!["-O1"] });
         v.push(Input { family: "corpus", name: format!("p{} unchanged -O0 --insert_code", pi), src: p.as_bytes().to_vec(), opts: vec!["-O0", "--insert-code"] });
+        {
+            // the closing brace pulled up to the last statement's line; with and without the final newline
+            let t = p.trim_end();
+            if let Some(k) = t.rfind('\n') {
+                let joined = format!("{} {}", &t[..k], &t[k + 1..]);
+                for (nm, src) in [("last line joined", format!("{}\n", joined)), ("last line joined, no final newline", joined.clone()), ("no final newline", t.to_string())] {
+                    for opts in [vec!["-O1"], vec!["-O0", "--insert-code"], vec!["-O1", "--insert-code"]] {
+                        v.push(Input { family: "corpus", name: format!("p{} {} {:?}", pi, nm, opts), src: src.clone().into_bytes(), opts });
+                    }
+                }
+            }
+        }
         for (n, i) in idxs.iter().enumerate() {
             let mut t = toks.clone();
             t.remove(*i);
@@ -317,7 +365,15 @@ pub fn inputs(tier: Tier) -> Vec<Input> {
 pub fn judge(inp: &Input) -> CaseOutcome {
     let ident = format!("C16|{}|{}|{}", inp.family, inp.opts.join(" "), String::from_utf8_lossy(&inp.src));
     let mut o = CaseOutcome::new(ident.clone());
-    let (out, _) = drv::compile_src(&inp.src, &inp.opts);
+    let mut src_bytes = inp.src.clone();
+    if let Ok(t) = std::str::from_utf8(&inp.src) {
+        if t.contains("c16_inc_plain.h") {
+            let path = format!("{}/c16_inc_plain_{}.h", crate::engine::run_dir(), std::process::id());
+            let _ = std::fs::write(&path, "char inc_a;");
+            src_bytes = t.replace("c16_inc_plain.h", &path).into_bytes();
+        }
+    }
+    let (out, _) = drv::compile_src(&src_bytes, &inp.opts);
     let text = String::from_utf8_lossy(&inp.src).to_string();
     let nlines = text.split('\n').count() as u32;
     let shown: String = if text.len() > 600 { format!("{}... ({} bytes)", &text.chars().take(600).collect::<String>(), text.len()) } else { text.clone() };
